@@ -25,6 +25,10 @@ def build(tier):
     # the same option name declared twice (second declaration undocumented, e.g. inside if(WIN32)): two entries
     obs += [ob("option_twice", ["quo", "id", "id"], 1, True, timeout=t), ob("option_twice", ["quo", "id"], 1, False, timeout=t)]
     obs += [ob("set_twice", ["quo", "id"], 1, True, timeout=t), ob("set_twice", ["id", "id", "id"], 1, True, timeout=t)]
+    # C10.b rendering: type, default and help are stated whatever the doccomment says (a doccomment that has a ':type:' field of its own)
+    import renders
+    for (k, sh) in (("variable", dict(vtype="str")), ("variable", dict(vtype="list")), ("variable", dict(vtype="UNSET")), ("option", dict(default=True)), ("option", dict(default=False))):
+        obs.append(renders.render_ob("C10.b", k, sh, (7, 0), 2, timeout=t))
     if not quick:
         obs += [ob("option", ["quo"], L, False, timeout=t), ob("set", ["quo"], 3, timeout=2400), ob("set", ["unq_esc"], 3, timeout=2400)]
     return dict(obligations=obs, explanation="x", assumptions=[])
